@@ -30,13 +30,21 @@ CHECKS = [
   "note": _TB + "validators' inputs are dumps taken through public accessors; Earley/tree-validity oracles (Python) only search for failing inputs.",
   "technique": "Coq proof of a verified validator (LR soundness/completeness from per-grammar certificate) + interpreter/implementation differential"},
  {"id": "C02",
-  "text": "Coq theorem validated_automata_agree: two validated automata of a productive grammar give the same tree or first-error position "
-          "on ALL inputs. Per generated reduced grammar the canonical LR(1) automaton (extracted, validated per grammar) certifies LR(1)-ness; "
-          "the implementation must then report no conflict, have no more states, pass the validators and agree on all generated inputs. "
-          "The universal claim over grammars (Pager's theorem) is decided per generated grammar only: partial.",
+  "text": "Coq theorems for ALL grammars: Pager's theorem mechanised on the LR(1) model — the mirror of Itemset::weakly_compatible decides "
+          "Pager's weak compatibility for every hash order (weakly_compatible_mirror_spec), weakly_merge is the exact union, continuations are "
+          "linear in the contexts (closure_linear, goto_linear, la_origin), merging weakly compatible kernels with conflict-free canonical "
+          "continuations creates no conflict (weak_merge_safe); for the MIRROR of pager_stategraph + gc and every key-order oracle the loop "
+          "terminates, reaches no panic site, every closed state is the exact LR(1) closure of its core, edges are exactly the gotos, and the "
+          "induced automaton passes validS/validE always and validC/single_candidate whenever the grammar is LR(1) "
+          "(pager_construction_correct), hence agrees on ALL inputs with any validated automaton, the canonical one in particular "
+          "(pager_parser_agrees, validated_automata_agree); lr1_check is a proved-sound certificate for LR(1)-ness. Tie per generated grammar: "
+          "the weak-compat/merge hook vs mirror vs declarative spec on real and perturbed item sets; the extracted loop mirror replays the "
+          "implementation's recorded key orders and must rebuild the identical StateGraph; induced table = StateTable cell by cell; validated "
+          "canonical LR(1) automaton (extracted canon_lr1): no conflict reported, no more states, same outcome on all generated inputs. "
+          "'Never more states than the canonical automaton' is observed per grammar only (no proof found).",
   "design_ref": "DESIGN.md §5 C02",
   "note": _TB + "canon_lr1 is unverified but its output is validated per grammar by the proved validators.",
-  "technique": "Coq proof (agreement of validated automata) + validated canonical LR(1) reference differential"},
+  "technique": "Coq proof (Pager's theorem and correctness of a mirror of pager_stategraph for all grammars; agreement of validated automata) + replay of the implementation's run by the extracted mirror + validated canonical LR(1) reference differential"},
  {"id": "C04",
   "text": "Coq theorems for any validated dump of a productive grammar and ALL inputs: a Reject at lexeme k implies the first k lexemes are "
           "a prefix of a sentence (shifted_prefix_viable) and the first k+1 are not (first_error_not_viable). Tie as C01, plus error "
